@@ -74,7 +74,7 @@ def run(ctx):
     ctx.assumptions += ["byte/row/column quantities < 2^32", "theorems assume Summarized/shapeOK of C02 (checked on every real tree by ./check C02)"]
     ctx.extra_lean_dirs = ["C02"]
     ctx.regen()
-    ctx.prove(["TsVerif.C06.Props", "TsVerif.C06.CursorProps", "TsVerif.C06.NodeProps", "TsVerif.C06.SiblingZw", "TsVerif.C06.NavVariants", "TsVerif.C06.FlatProps", "TsVerif.C06.FieldProps", "TsVerif.C06.SiblingNamed", "TsVerif.C06.SiblingNamedNext", "TsVerif.C06.NamedFcb", "TsVerif.C06.CursorFcb", "TsVerif.C06.FieldWitness", "TsVerif.C06.CursorParent", "TsVerif.C06.CursorFcbFlat", "TsVerif.C06.FieldNamed", "TsVerif.C06.RangeFlat", "TsVerif.C06.RangeFlatP"], "TsVerif/C06/Audit.lean")
+    ctx.prove(["TsVerif.C06.Props", "TsVerif.C06.CursorProps", "TsVerif.C06.NodeProps", "TsVerif.C06.SiblingZw", "TsVerif.C06.NavVariants", "TsVerif.C06.FlatProps", "TsVerif.C06.FieldProps", "TsVerif.C06.SiblingNamed", "TsVerif.C06.SiblingNamedNext", "TsVerif.C06.NamedFcb", "TsVerif.C06.CursorFcb", "TsVerif.C06.FieldWitness", "TsVerif.C06.CursorParent", "TsVerif.C06.CursorFcbFlat", "TsVerif.C06.FieldNamed", "TsVerif.C06.RangeFlat", "TsVerif.C06.RangeFlatP", "TsVerif.C06.EmptyRange"], "TsVerif/C06/Audit.lean")
     driver = ctx.build_driver("tsv-c06")
     explorer = ctx.cargo_bin("c06")
     langdump = ctx.cunit("cunit_c02")
@@ -121,7 +121,7 @@ def run(ctx):
     cwidths = {"measured": 0, "assumed": 0, "ok": False, "detail": "probe did not run"}
     skip_langs = set()
     par = {"parchk": 0, "parzw": 0, "parbad": 0, "parflat": 0, "nschk": 0, "nsout": 0, "nsbad": 0, "nsflat": 0,
-           "pschk": 0, "psout": 0, "psbad": 0, "psflat": 0, "cfcchk": 0, "cfcout": 0, "cfcbad": 0, "cfcflat": 0, "nnschk": 0, "nnsout": 0, "nnsbad": 0, "nnsflat": 0, "npschk": 0, "npsout": 0, "npsbad": 0, "npsflat": 0, "cparchk": 0, "cparbad": 0, "cbfchk": 0, "cbfout": 0, "cbfbad": 0, "cbfflat": 0, "cbfskip": 0, "nfcbchk": 0, "nfcbout": 0, "nfcbbad": 0, "nfcbflat": 0, "ndfrchk": 0, "ndfrbad": 0, "ndfrflat": 0, "pdfrchk": 0, "pdfrbad": 0, "pdfrflat": 0, "znschk": 0, "znsout": 0, "znsbad": 0, "zpschk": 0, "zpsout": 0, "zpsbad": 0, "pgenbad": 0, "znsoutpar": 0, "znsoutfollow": 0, "znsoutzw": 0, "zpsoutpar": 0, "zpsoutid": 0, "zpsoutzw": 0, "fcbchk": 0, "fcbout": 0, "fcbbad": 0, "fcbflat": 0, "dfrchk": 0, "dfrbad": 0, "dfrflat": 0}
+           "pschk": 0, "psout": 0, "psbad": 0, "psflat": 0, "cfcchk": 0, "cfcout": 0, "cfcbad": 0, "cfcflat": 0, "nnschk": 0, "nnsout": 0, "nnsbad": 0, "nnsflat": 0, "npschk": 0, "npsout": 0, "npsbad": 0, "npsflat": 0, "cparchk": 0, "cparbad": 0, "edfrchk": 0, "edfrout": 0, "edfrbad": 0, "edfrslack": 0, "cbfchk": 0, "cbfout": 0, "cbfbad": 0, "cbfflat": 0, "cbfskip": 0, "nfcbchk": 0, "nfcbout": 0, "nfcbbad": 0, "nfcbflat": 0, "ndfrchk": 0, "ndfrbad": 0, "ndfrflat": 0, "pdfrchk": 0, "pdfrbad": 0, "pdfrflat": 0, "znschk": 0, "znsout": 0, "znsbad": 0, "zpschk": 0, "zpsout": 0, "zpsbad": 0, "pgenbad": 0, "znsoutpar": 0, "znsoutfollow": 0, "znsoutzw": 0, "zpsoutpar": 0, "zpsoutid": 0, "zpsoutzw": 0, "fcbchk": 0, "fcbout": 0, "fcbbad": 0, "fcbflat": 0, "dfrchk": 0, "dfrbad": 0, "dfrflat": 0}
     ns_bad_cases = []
     par_bad_cases = []
     per_clause = {}
@@ -135,11 +135,11 @@ def run(ctx):
         cid, corr, judge, kv = r
         if kv.get("cwidthcase") == "1":
             cwidths.update({"measured": int(kv.get("measured", "0") or 0), "assumed": int(kv.get("assumed", "0") or 0), "ok": corr == "ok",
-                            "detail": detail(corr, "tie:cursor-index-widths") if corr != "ok" else "all index fields hold 32 bits"})
+                            "detail": detail(corr, "tie:cursor-index-widths") if corr != "ok" else "all answers beyond index 65535 are those of a flat node"})
             if corr != "ok":
-                ctx.violation("tie", "an index field of the tree cursor / child iterators is narrower than the Nat-valued ports assume: %s" % cwidths["detail"][:500],
+                ctx.violation("tie", "the real cursor / node functions lose track of children beyond index 65535 of a flat node of 70000 leaves (an index field narrower than the Nat-valued ports assume): %s" % cwidths["detail"][:500],
                               {"case": cid, "clause": "tie:cursor-index-widths", "verdict": corr[:1200],
-                               "correspondence": "TsVerif.C06.assumedCursorBits vs lib/src/tree_cursor.h:TreeCursorEntry, tree_cursor.c:CursorChildIterator, node.c:NodeChildIterator"},
+                               "correspondence": "TsVerif.C06.wideProbeExpected vs the real cursor / node functions on a flat node of 70000 leaves (tsv-cunit_c02 cwidths)"},
                               fingerprint={"lang": "-", "clause": "tie:cursor-index-widths", "defect": "tie:cursor-index-widths"}, found_input=False)
             continue
         evals += 1
@@ -169,7 +169,7 @@ def run(ctx):
                 or int(kv.get("psflat", "0") or 0) or int(kv.get("fcbbad", "0") or 0) or int(kv.get("fcbflat", "0") or 0)
                 or int(kv.get("dfrbad", "0") or 0) or int(kv.get("dfrflat", "0") or 0) or int(kv.get("znsbad", "0") or 0)
                 or int(kv.get("zpsbad", "0") or 0) or int(kv.get("pgenbad", "0") or 0)
-                or any(int(kv.get(k, "0") or 0) for k in ["cparbad", "cfcbad", "cfcflat", "nnsbad", "nnsflat", "npsbad", "npsflat", "cbfbad", "cbfflat", "nfcbbad", "nfcbflat", "ndfrbad", "ndfrflat", "pdfrbad", "pdfrflat"])) and len(ns_bad_cases) < 3:
+                or any(int(kv.get(k, "0") or 0) for k in ["edfrbad", "cparbad", "cfcbad", "cfcflat", "nnsbad", "nnsflat", "npsbad", "npsflat", "cbfbad", "cbfflat", "nfcbbad", "nfcbflat", "ndfrbad", "ndfrflat", "pdfrbad", "pdfrflat"])) and len(ns_bad_cases) < 3:
             ns_bad_cases.append("%s: %s" % (cid, specs.get(cid, "")[:120]))
         fan = int(kv.get("fanout", "0") or 0)
         max_fanout = max(max_fanout, fan)
@@ -209,8 +209,9 @@ def run(ctx):
                                   fingerprint={"lang": lang, "clause": cl, "defect": cl}, found_input=False)
     ctx.oblige("corr:ports=node.c+tree_cursor.c+sexp-writer", corr_bad == 0, "%d trees with disagreements" % corr_bad)
     if not ctx.replay:
-        ctx.oblige("tie:cursor-and-iterator-index-widths-measured>=assumedCursorBits(child_index, structural_child_index, descendant_index of TreeCursorEntry / "
-                   "CursorChildIterator / NodeChildIterator hold 32 bits; all-ones entry read back through ts_tree_cursor_current_descendant_index)",
+        ctx.oblige("tie:cursor-and-iterator-indices-beyond-16-bits(behavioural: a flat node of 70000 one-byte leaves built with the real constructors; goto_last_child, "
+                   "goto_previous_sibling, a full goto_next_sibling walk, goto_descendant(65537), goto_first_child_for_byte(66000), ts_node_child(65536 / last), next / prev sibling, "
+                   "first_child_for_byte, descendant_for_byte_range answer as the arithmetic of such a node; all-ones entry read back through ts_tree_cursor_current_descendant_index)",
                    cwidths["ok"] and cwidths["measured"] >= cwidths["assumed"] > 0,
                    "%d fields measured, %d assumed: %s" % (cwidths["measured"], cwidths["assumed"], cwidths["detail"][:300]))
     ctx.coverage["cursor_index_field_widths"] = cwidths
@@ -268,6 +269,14 @@ def run(ctx):
                "depth decreases by one; on the root it fails)", par["cparbad"] == 0 and (par["cparchk"] > 0 or evals == 0 or bool(ctx.replay)),
                "%d cursors checked, %d conclusion failures %s" % (par["cparchk"], par["cparbad"], "; ".join(ns_bad_cases)))
     ctx.coverage["cursor_parent_spec"] = {"cursors_checked": par["cparchk"], "conclusion_failures": par["cparbad"]}
+    ctx.oblige("corr:descendant_for_empty_byte_range_ft_spec-conclusion-holds-wherever-emptyOK-holds(EMPTY ranges [x,x] from the root, x = start / end of every node, both flags: "
+               "port = dfrIdealE = FT.descendantForBytes; emptyOK: a hidden child the scan passes over hides no visible zero-width node at x, a hidden child it enters that offers nothing "
+               "visible at x is not followed by a visible node the ordered search would enter; positions failing it are outside = finding descendant-range-zero-width)",
+               par["edfrbad"] == 0 and (par["edfrchk"] > 0 or evals == 0 or bool(ctx.replay)),
+               "%d (position, flag) pairs checked, %d positions outside (on %d of them the port nevertheless agrees with the ordered tree: slack of the hypothesis), %d bad %s"
+               % (par["edfrchk"], par["edfrout"], par["edfrslack"], par["edfrbad"], "; ".join(ns_bad_cases)))
+    ctx.coverage["empty_byte_range_spec"] = {"pairs_checked": par["edfrchk"], "positions_outside_the_theorem(emptyOK false)": par["edfrout"],
+                                             "outside_but_port_agrees_with_the_ordered_tree(slack)": par["edfrslack"], "conclusion_failures": par["edfrbad"]}
     ctx.coverage["cursor_first_child_for_spec"] = {k: par[k] for k in ["cfcchk", "cfcout", "cfcbad", "cfcflat"]}
     ctx.oblige("corr:next_sibling_spec_anon-NAMED-flag(ts_node_next_named_sibling; every relevant node of any width with nsPathOK, for zero-width nodes nsZwOKA, tree satisfies anonLeafOK): "
                "port = first NAMED element of laterOnPath = FT.nextSibling namedOnly",
